@@ -43,6 +43,8 @@ Ledger(live, errors) == live = 0 /\ errors = 0 /\ UNCHANGED hvars
 \* a block is handed out to one owner at a time, cache-line aligned, and comes back intact from its owner
 PAlloc(t, h, al) == /\ h \notin DOMAIN held /\ al = 0
                     /\ held' = [x \in DOMAIN held \cup {h} |-> IF x = h THEN t ELSE held[x]] /\ UNCHANGED rng
+\* a block in use changes hands (it will be given back by somebody else)
+PMove(t, h, to) == /\ h \in DOMAIN held /\ held[h] = t /\ held' = [held EXCEPT ![h] = to] /\ UNCHANGED rng
 PFree(t, h, intact) == /\ h \in DOMAIN held /\ held[h] = t /\ intact = 1
                        /\ held' = [x \in DOMAIN held \ {h} |-> held[x]] /\ UNCHANGED rng
 =============================================================================
